@@ -237,7 +237,7 @@ Proof.
   destruct Hcases as [->|[->|[->|[->|[->|[->|[->|[->|[->| ->]]]]]]]]]; cbn [fst].
   - exact HG.
   - destruct (lset k); [exact HG|]. cbn [fst].
-    apply (upd1 _ (set_limit r (2 + zmod a 7)) eq_refl). apply (keep_same_rpt L (now s) r); auto. apply Forall2_keep_refl.
+    eapply upd1; [reflexivity|]. apply (keep_same_rpt L (now s) r); auto. apply Forall2_keep_refl.
   - (* register *)
     set (n := N.min (N.min (interest r) (N.max (zmod d 4) 1)) (MAX_IDS - nids s)).
     pose proof (register_n_linv L (N.to_nat n) true s c k r a b (Ho eq_refl) HR) as H.
@@ -245,7 +245,7 @@ Proof.
     { pose proof (inv_count _ HR). unfold n, interest. lia. }
     specialize (H Hn Hl). destruct (register_n (N.to_nat n) true s c k r a b) as [[[s1 k1] r1] o1].
     destruct H as (I1 & I2 & I3). cbn [fst]. unfold GL, set_conn. cbn [conns now]. rewrite I2, I3.
-    apply Forall_set_nth; auto. cbn [with_reg creg]. exact I1.
+    apply Forall_set_nth; [exact HG|]. cbn [with_reg creg]. exact I1.
   - (* retire *)
     match goal with |- context [on_retire r ?sq ?dc ?rtt ?nw] =>
       pose proof (retire_in_keep (infos r) sq dc (nw + rtt * rtt_multiplier)) as K;
@@ -255,7 +255,7 @@ Proof.
        apply (keep_same_rpt L (now s) r); auto|];
       destruct (on_retire r sq dc rtt nw) as [rc r'] end.
     cbn [snd] in HL'. destruct (rc =? 0); cbn [fst].
-    + apply (upd1 _ r' eq_refl HL').
+    + eapply upd1; [reflexivity|exact HL'].
     + unfold GL, close_conn. cbn [conns now]. apply Forall_set_nth; auto. exact I.
   - (* transmit *)
     pose proof (transmit_in_keep (infos r) (rpt r) (zmod a 4) (zmod b 5) (cpn k)) as K.
@@ -263,13 +263,13 @@ Proof.
     { unfold on_transmit. destruct (can_tx _ _); [|exact Hl].
       destruct (transmit_in (infos r) (rpt r) (zmod a 4) (zmod b 5) (cpn k)). cbn [fst] in *. apply (keep_same_rpt L (now s) r); auto. }
     destruct (on_transmit r (zmod a 4) (zmod b 5) (cpn k)) as [r' fs]. cbn [fst] in *.
-    apply (upd1 _ r' eq_refl HL').
+    eapply upd1; [reflexivity|exact HL'].
   - (* ack *)
-    apply (upd1 _ _ eq_refl). apply (keep_same_rpt L (now s) r); auto. unfold on_ack. cbn [infos]. apply map_keep.
+    eapply upd1; [reflexivity|]. apply (keep_same_rpt L (now s) r); auto. unfold on_ack. cbn [infos]. apply map_keep.
     intros i. destruct (ist i) eqn:E; try apply keep_refl. destruct (in_range _ _ pn); [|apply keep_refl].
     repeat split; auto. unfold is_retired. rewrite E. discriminate.
   - (* loss *)
-    apply (upd1 _ _ eq_refl). apply (keep_same_rpt L (now s) r); auto. unfold on_loss. cbn [infos]. apply map_keep.
+    eapply upd1; [reflexivity|]. apply (keep_same_rpt L (now s) r); auto. unfold on_loss. cbn [infos]. apply map_keep.
     intros i. destruct (ist i) eqn:E; try apply keep_refl. destruct (in_range _ _ pn); [|apply keep_refl].
     apply keep_set_st. unfold is_retired. rewrite E. discriminate.
   - (* timeout *)
@@ -277,9 +277,9 @@ Proof.
     pose proof (on_timeout_linv L (now s) r (idm s) ts HR Hl ltac:(unfold ts; lia)) as H.
     destruct (on_timeout r (idm s) ts) as [r' m']. cbn [fst] in *. unfold GL. cbn [conns now].
     apply Forall_set_nth; [|cbn [with_reg creg]; exact H].
-    unfold GL in HG. eapply Forall_impl; [|exact HG]. intros k0. destruct (creg k0); auto. apply LInv_now. unfold ts. lia.
+    unfold GL in HG. eapply Forall_impl; [|exact HG]. intros k0 X. cbn beta in X. destruct (creg k0); auto. eapply LInv_now; [|exact X]. unfold ts. lia.
   - (* handshake confirmed *)
-    apply (upd1 _ _ eq_refl). unfold on_handshake_confirmed. destruct (rot r) eqn:Erot; [|exact Hl].
+    eapply upd1; [reflexivity|]. unfold on_handshake_confirmed. destruct (rot r) eqn:Erot; [|exact Hl].
     destruct (retire_hs (infos r)) as [l|] eqn:E; [|exact Hl].
     pose proof (retire_hs_keep _ _ E) as K. pose proof (retire_hs_zero _ _ E (inv_sorted _ HR)) as Z0.
     apply (keep_inv2 L (now s) r); cbn [infos rpt]; auto.
